@@ -8,7 +8,9 @@ LEVEL = "translation_validation"
 
 
 def run(chk, tier):
-    e4.check(chk, ("visit",), tier)
+    # visiting walks entries with a cursor: every entry must hand the cursor over to its successor (E4.cursor, incl. the
+    # generated constructor of entries without cursor-moving members)
+    e4.check(chk, ("visit", "cursor"), tier)
     for name in (["vlayout", "vprims_le"] + (["vheaders", "test_schema", "vnames"] if tier == "thorough" else [])):
         spec_visit.check(chk, lib_for(name))
     n = chk.rule_counts.get("E4.visit", 0)
